@@ -52,7 +52,21 @@ ASSUMPTIONS = [
     "sink equality is demanded only when the codec can represent every character of the output",
     "imagewriter is None (image export belongs to C18/C15)",
 ]
-STATEMENT_STATUS: Dict[str, str] = {}
+STATEMENT_STATUS: Dict[str, str] = {
+    "C11_text": "proved: text sink output of TextConverter = specText (in-order text, LF per box, FF per page), all trees",
+    "C11_sink": "proved: any codec state machine with a left-inverse decoder, any cut into writes, both error policies",
+    "C11_sink_text": "proved (corollary: decoded binary text output = specText)",
+    "C11_sink_xml": "proved (corollary for the xml writes)",
+    "esc_safe": "proved: enc leaves no raw < > \" '",
+    "esc_unesc": "proved: reader's unescape inverts enc on XML characters (character data, no CR)",
+    "esc_unesc_attr": "proved: attribute position incl. strip_control, TAB/LF/CR as references; no raw \" or <",
+    "esc_unesc_text": "proved: character data position incl. strip_control, CR as reference; no raw <",
+    "strip_legal": "proved: after CONTROL stripping (regenerated class) XML chars + C0 controls are XML chars",
+    "C11_xml_lex_partial": "partial: token level only - the reader's lexer inverts the rendering of every well-formed "
+                           "token sequence; the assembly of C11_xml_wf over the whole hierarchy (templates = token "
+                           "renderings, tree construction = skeleton) is evaluated per generated tree by the driver "
+                           "(ops xmlcheck, parse) but not yet proved",
+}
 
 CLASSIFIERS: Dict[str, Any] = {}
 
